@@ -317,7 +317,8 @@ class DB:
         res = DB()
         db = {}
         for pkg in package_iter:
-            db[pkg] = self.db[pkg].copy()
+            if pkg in self.db:
+                db[pkg] = self.db[pkg].copy()
         res.db = db
         res.rdb = reverse(db)
         return res
